@@ -141,6 +141,17 @@ def error_hook_table(ctx, rule):
         if v[0] == "v" and v[1] == "core::result::Result":
             errs.append((v[2], v[3]))
     ok = ok and any(k == "Err" and list(f.values())[0] == ("var", "crit") for k, f in errs) and any(k == "Ok" for k, f in errs)
+    if not ok and any(n.endswith("Arc::try_unwrap") for n in names) and any(n.endswith("OnceLock::into_inner") for n in names):
+        # the same table spelled with `match` / `if let` on the slot's content: Err(crit) exactly on the paths that found Some(crit)
+        rows = []
+        for q in pathx.Enum(interesting=lambda d_: False).paths(thir.root(hc)):
+            some = None
+            for e in q.ev:
+                if e[0] == "iflet" and "OnceLock::into_inner(" in e[1]:
+                    some = bool(e[3]) if "Some" in e[2] else (not e[3])
+            rows.append((some, q.val))
+        ok = bool(rows) and any(s_ is True for s_, _ in rows) and all((v_ == "Err{0: crit}") == (s_ is True) for s_, v_ in rows) \
+            and all(v_ in ("Err{0: crit}", "Ok{0: ()}") for _, v_ in rows)
     ctx.require(ok, rule, "handle-crit", "handle_crit returns Err(crit) exactly when the handler stored a critical error", hc.loc(hc.line),
                 fail="handle_crit no longer turns a stored critical error into Err(crit)")
 
